@@ -352,4 +352,31 @@ def translate (cs : List ParsedClass) : Res :=
       hasInterface := c.abstract || !(ontDesc anc order c.name).isEmpty
       withModelType := finalWmt (get (ownWmt cs) ser.1) c.name }) }
 
+/-! ## the components of `translate` by name (what the theorems talk about) -/
+
+/-- `descendants` of the intermediate classes as `translate` tabulates them -/
+def descendantsOf (cs : List ParsedClass) (order : List Name) : Name → List Name :=
+  get (fun _ => []) ((names cs).map (fun a => (a, irDesc (ontDesc (get (fun _ => []) (ontAncL (parentsOf cs) order)) order) a)))
+
+def ancestorsOf (cs : List ParsedClass) (order : List Name) (c : Name) : List Name :=
+  irAnc (names cs) (descendantsOf cs order) c
+
+def concreteDescendantsOf (cs : List ParsedClass) (order : List Name) (c : Name) : List Name :=
+  concreteDesc cs (descendantsOf cs order) c
+
+def propsOf (cs : List ParsedClass) (order : List Name) : Name → List Item :=
+  stackAll (parentsOf cs) (ownItems cs (·.ownProps)) order
+
+def invsOf (cs : List ParsedClass) (order : List Name) : Name → List Item :=
+  stackAll (parentsOf cs) (ownItems cs (·.ownInvs)) order
+
+def methodsOf (cs : List ParsedClass) (order : List Name) : Name → List Item :=
+  get (ownItems cs (·.ownMethods)) (stackMethods (parentsOf cs) (ownItems cs (·.ownMethods)) order).1
+
+def hasInterfaceOf (cs : List ParsedClass) (order : List Name) (c : ParsedClass) : Bool :=
+  c.abstract || !(ontDesc (get (fun _ => []) (ontAncL (parentsOf cs) order)) order c.name).isEmpty
+
+def wmtOf (cs : List ParsedClass) (order : List Name) (c : Name) : Bool :=
+  finalWmt (get (ownWmt cs) (stackSer (parentsOf cs) (ownWmt cs) order).1) c
+
 end AasVerif.Hier
